@@ -266,6 +266,10 @@ def execLine (r : RS) (line : String) : RS :=
       let cs := normComps (splitKey path)
       if kind = "dir" then { r with fsDirs := r.fsDirs ++ [cs] }
       else if kind = "file" then { r with fsFiles := r.fsFiles ++ [cs] }
+      else if kind = "rm" then
+        -- a file or a whole subtree disappears (between two populations)
+        { r with fsDirs := r.fsDirs.filter (fun d => !cs.isPrefixOf d),
+                 fsFiles := r.fsFiles.filter (fun f => !cs.isPrefixOf f) }
       else bad
   | ["pop", p, n, t] =>
     match parseFlag "nest" n, parseFlag "trim" t with
